@@ -206,3 +206,10 @@ Proof. exact iter_example. Qed.
 Example C17_nonvacuous_cpi :
   cpi_walk vnum_eq_rust true 10 (mkV 5 3) (fun n => n =? 2) = Ok (Some (mkV 2 3)).
 Proof. exact cpi_example. Qed.
+
+(** the class found in the third-party URI parser (classified by the search only) *)
+Example C17_known_colon_uri_members :
+  c17_colon_uri (b ":") = true /\ c17_colon_uri (b "1:x") = true /\ c17_colon_uri (b "%3A:") = true /\
+  c17_colon_uri (b "urn:x") = false /\ c17_colon_uri (b "//h:1/p") = false /\ c17_colon_uri (b "a/b:c") = false /\
+  c17_colon_uri (b "") = false.
+Proof. exact colon_uri_examples. Qed.
